@@ -75,8 +75,32 @@ let date_field_of (s : string) : date_field = match s with
   | "60F" -> F60F | "60M" -> F60M | "61" -> F61 | "62F" -> F62F | "62M" -> F62M | "64" -> F64 | "65" -> F65
   | "13Djson" -> F13D_json | _ -> F30
 
+let rec string_of_pos (p : positive) : string =
+  (* decimal rendering of a binary positive via repeated doubling on a decimal string *)
+  let double_plus (s : string) (carry0 : int) : string =
+    let n = String.length s in
+    let b = Bytes.create n in
+    let carry = ref carry0 in
+    for i = n - 1 downto 0 do
+      let d = (Char.code s.[i] - 48) * 2 + !carry in
+      Bytes.set b i (Char.chr (48 + d mod 10)); carry := d / 10
+    done;
+    (if !carry > 0 then string_of_int !carry else "") ^ Bytes.to_string b in
+  match p with
+  | XH -> "1"
+  | XO q -> double_plus (string_of_pos q) 0
+  | XI q -> double_plus (string_of_pos q) 1
+let string_of_z (z : z) : string = match z with Z0 -> "0" | Zpos p -> string_of_pos p | Zneg p -> "-" ^ string_of_pos p
+let rec nat_to_int (x : nat) : int = match x with O -> 0 | S y -> 1 + nat_to_int y
+
 let run (cols : string array) : string =
   match cols.(0) with
+  | "amount" ->
+      (match parse_amount (unhex cols.(1)) with
+       | None -> "ERR"
+       | Some x ->
+           let fm k = str (format_amount (nat_of_int k) x) in
+           Printf.sprintf "OK\t%s\t%s|%s|%s|%s|%s" (string_of_z (to_bits x)) (fm 0) (fm 1) (fm 2) (fm 3) (fm 4))
   | "date" ->
       (match date_of (date_field_of cols.(1)) (unhex cols.(2)) with
        | None -> "ERR"
